@@ -30,6 +30,8 @@ func runC02(c *Ctx, r *Report) {
 	refusedOperationsLeaveNoTrace(c, r, "R-C02.7")
 	r.Doc("R-C02.8", "the loops that maintain heads and the predecessor index (Append, Join, FindHeads, NewLog) process every element")
 	loopsComplete(c, r, "R-C02.8", func(fn *Fn) bool { return rootNamed(fn, "Append", "Join", "FindHeads", "NewLog") }, "a predecessor link is not indexed or a candidate head is not examined: referenced entries stay heads, or heads are missed")
+	r.Doc("R-C02.10", "what a merge takes from the other log is collected by walking from the heads it read: every key filed in the candidate set derives from the heads handed in or from the predecessor links of a candidate (a plain set difference of the two indexes also takes entries the read heads do not cover, and the merged heads then miss them)")
+	candidatesWalkFromHeads(c, r, "R-C02.10")
 	r.Doc("R-C02.9", "the predecessor index that decides which entries are referenced is keyed by predecessor links of the filed entry (not by its references, not by another list)")
 	indexKeys(c, r, "R-C02.9")
 
@@ -478,4 +480,83 @@ func findHeadsShape(c *Ctx, r *Report, rule string) {
 	})
 	r.Floor(rule, "result appends in FindHeads", napp, 1)
 
+}
+
+// candidatesWalkFromHeads (R-C02.10, adopted by C14): in `difference`, the keys filed in the returned collection
+// derive — by data flow only — from the heads parameter.
+func candidatesWalkFromHeads(c *Ctx, r *Report, rule string) {
+	p := c.P
+	diff := p.Func("", "", "difference")
+	sdf := p.SSAFunc(diff)
+	var headsP *ssa.Parameter
+	for _, par := range sdf.Params {
+		if sl, ok := par.Type().Underlying().(*types.Slice); ok && isNamed(sl.Elem(), p.pkgPath("iface"), "IPFSLogEntry") {
+			headsP = par
+		}
+	}
+	key := r.Key(rule, diff, "walk-from-heads", "")
+	if headsP == nil {
+		r.Violate(rule, key, diff.Body.Pos(), "the candidate collection of Join takes no list of heads: it cannot restrict itself to what the read heads cover")
+		return
+	}
+	// the returned collections
+	returned := map[ssa.Value]bool{}
+	allInstrs(sdf, false, func(ins ssa.Instruction) {
+		if ret, ok := ins.(*ssa.Return); ok {
+			for _, res := range ret.Results {
+				for v := range backSliceOpt(res, nil, false) {
+					returned[v] = true
+				}
+			}
+		}
+	})
+	nset := 0
+	for _, g := range p.ssaGroup(sdf) {
+		allInstrs(g, false, func(ins ssa.Instruction) {
+			call, ok := ins.(ssa.CallInstruction)
+			if !ok {
+				return
+			}
+			com := call.Common()
+			name := ""
+			var recv ssa.Value
+			var args []ssa.Value
+			if com.IsInvoke() {
+				name, recv, args = com.Method.Name(), com.Value, com.Args
+			} else if cal := com.StaticCallee(); cal != nil && cal.Signature.Recv() != nil && len(com.Args) > 0 {
+				name, recv, args = cal.Name(), com.Args[0], com.Args[1:]
+			}
+			if name != "Set" || len(args) != 2 || recv == nil {
+				return
+			}
+			if !returned[recv] && g == sdf {
+				// a store into a scratch map (the visited set is a Go map, not Set) — not the result
+				found := false
+				for v := range backSliceOpt(recv, nil, false) {
+					if returned[v] {
+						found = true
+					}
+				}
+				if !found {
+					return
+				}
+			}
+			nset++
+			fromHeads := false
+			for v := range backSliceOpt(args[0], nil, false) {
+				if v == ssa.Value(headsP) {
+					fromHeads = true
+				}
+			}
+			pos := ins.Pos()
+			if !pos.IsValid() {
+				pos = nearestPos(ins)
+			}
+			r.Check(fromHeads, rule, key, pos, "the key filed in the candidate set derives from the heads handed in",
+				"the key under which difference files a candidate does not derive from the heads Join read (it comes from the other log's whole index): entries the read heads do not cover are merged, and the merged heads miss them")
+		})
+	}
+	if nset == 0 {
+		r.Violate(rule, key, diff.Body.Pos(), "difference files nothing in the collection it returns")
+	}
 }
